@@ -257,8 +257,10 @@ def run(ctx: lib.Ctx) -> None:
         cases.append((f'({V.checksums_coq([a, b])}, {V.tables_coq([a, b])}, {V.type_coq(t)}, {V.value_coq(a)}, {V.value_coq(b)})',
                       f'({cbool(wt)}, {cZ(g)}, {cZ(want if wt else 0)}, true)'))
         meta.append((t, a, b, got, want, code))
-    bad = V.par_mismatches(ctx, 'compare', IMPORTS, 'compare_case', 'compare_case_eqb',
-                           'list (bytes * bytes) * text_tables * cty * val * val', 'bool * Z * Z * bool', cases, shard=500)
+    import concurrent.futures
+    coq_pool = concurrent.futures.ThreadPoolExecutor(max_workers=1)
+    bad_future = coq_pool.submit(V.par_mismatches, ctx, 'compare', IMPORTS, 'compare_case', 'compare_case_eqb',
+                             'list (bytes * bytes) * text_tables * cty * val * val', 'bool * Z * Z * bool', cases, 500)
 
     reported = 0
     # (B) on every case
@@ -281,15 +283,16 @@ def run(ctx: lib.Ctx) -> None:
     if law and reported < 3:
         reported += 1
         ctx.violation('harness self-check: ' + law, {'note': 'base58check texts do not order like their payloads (texts_ok)'}, found=False)
-    known_idx = set()
-    if bad and reported == 0:
-        # the implementation agrees with the spec everywhere, yet the Coq side disagrees somewhere:
-        # either model != implementation (A) or the Python spec transcription != Coq cmp
-        for i in bad:
-            t, a, b, got, want, code = meta[i]
-            if got != want:
-                known_idx.add(i)    # already routed to a known finding above
-        rest = [i for i in bad if i not in known_idx]
+    compare_reported = reported
+
+    def finish_compare():
+        """(A) for the COMPARE stream, once coqc is done: the implementation agreed with the spec everywhere it was not
+        reported, yet the Coq side may disagree: model != implementation, Python spec != Coq cmp, or concrete text != real string."""
+        bad = bad_future.result()
+        coq_pool.shutdown()
+        if not bad or compare_reported:
+            return
+        rest = [i for i in bad if meta[i][3] == meta[i][4]]     # the others were routed above (violation or known finding)
         if rest:
             i = rest[0]
             t, a, b, got, want, code = meta[i]
@@ -297,7 +300,6 @@ def run(ctx: lib.Ctx) -> None:
                           {'correspondence': 'C03/COMPARE vs Michelson.Compare.py_compare (and spec_cmp vs cmp, concrete base58 texts vs real strings)',
                            'type': V.type_src(t), 'a': V.value_src(a), 'b': V.value_src(b), 'observed': got, 'python_spec': want,
                            'model': ctx.coq_eval(IMPORTS, f'compare_case {cases[i][0]}'), 'disagreements': len(rest)}, found=False)
-            reported += 1
 
     # ---------------- sets: order, deduplication, literals
     scases, smeta = [], []
@@ -348,8 +350,10 @@ def run(ctx: lib.Ctx) -> None:
         scases.append((f'({V.tables_coq(pool)}, {clist(f"({V.value_coq(v)}, {cbool(b)})" for v, b in ups)}, {clist(V.value_coq(v) for v in lit)})',
                        f'({clist(V.value_coq(v) for v in its)}, {cbool(acc is True)})'))
         smeta.append((t, ups, lit, items, acc, want_items, want_acc, code))
+    finish_compare()
+    reported = max(reported, len(ctx.violations))
     sbad = V.par_mismatches(ctx, 'setorder', IMPORTS, 'set_order_case', 'set_order_eqb',
-                            'text_tables * list (val * bool) * list val', 'list val * bool', scases, shard=100)
+                            'text_tables * list (val * bool) * list val', 'list val * bool', scases, shard=50)
     for i, (t, ups, lit, items, acc, want_items, want_acc, code) in enumerate(smeta):
         ok_items = isinstance(items, list) and [V.canon(x) for x in items] == [V.canon(x) for x in want_items]
         ok_lit = (acc is True) == want_acc and acc in (True, False)
